@@ -263,10 +263,15 @@ class Engine(  # pylint:disable=too-few-public-methods
                 # into a numpy or pandas dtype.
                 np_or_pd_dtype = pd.api.types.pandas_dtype(data_type)
                 if isinstance(np_or_pd_dtype, np.dtype):
-                    # cast alias to platform-agnostic dtype
-                    # e.g.: np.intc -> np.int32
-                    common_np_dtype = np.dtype(np_or_pd_dtype.name)
-                    np_or_pd_dtype = common_np_dtype.type
+                    if np_or_pd_dtype.kind in "SUV":
+                        # sized flexible dtypes ('<U3', 'S4') print as
+                        # 'str96' / 'bytes32', which numpy cannot parse back
+                        np_or_pd_dtype = np_or_pd_dtype.type
+                    else:
+                        # cast alias to platform-agnostic dtype
+                        # e.g.: np.intc -> np.int32
+                        common_np_dtype = np.dtype(np_or_pd_dtype.name)
+                        np_or_pd_dtype = common_np_dtype.type
 
             return engine.Engine.dtype(cls, np_or_pd_dtype)
 
